@@ -82,3 +82,17 @@ M["M11_overwrite_selects_by_path_prefix"] = ("fastparquet/writer.py", '''    rgs
     rgs_to_remove = filter(lambda rg : any(rg.columns[0].file_path.startswith(d) for d in new_dirs),
                            pf.row_groups)
 ''', "M")
+M["M12_path_string_whole_floats_as_int"] = ("fastparquet/util.py", '''    if isinstance(o, pd.Timestamp):
+        return o.isoformat()
+    return str(o)
+''', '''    if isinstance(o, pd.Timestamp):
+        return o.isoformat()
+    if isinstance(o, float) and o.is_integer():
+        return str(int(o))
+    return str(o)
+''', "M")
+M["M13_overwrite_compares_astype_str"] = ("fastparquet/writer.py", '''    partition_values_in_new = {
+        '/'.join(path_string(val) for val in values)
+        for values in new_partitions.itertuples(index=False, name=None)}
+''', '''    partition_values_in_new = set(new_partitions.astype(str).agg('/'.join, axis=1))
+''', "M")
